@@ -3,7 +3,7 @@
    C01).  A signal before effect k pickles the state after [firstn k effs] (locals are lost, the
    proposal's pool - the rest of the stream - is pickled with it); resume restarts the loop from its
    top on that state.  Definitions only.                                                        *)
-From Coq Require Import ZArith List Bool.
+From Coq Require Import String ZArith List Bool.
 From NessaiV Require Import Lib.Effects Model.C01_LiveSet.
 Import ListNotations.
 
@@ -231,6 +231,18 @@ Fixpoint pools_from (reseed : bool) (j i : nat) (h : list hev) : list (nat * nat
 Definition offered {A} (pool : nat * nat -> list A) (reseed : bool) (h : list hev) : list A :=
   flat_map pool (pools_from reseed 0 0 h).
 Definition resume_seed_ok (calls : list seedcall) : bool := negb (reseeds calls).
+
+(* ---- what the checkpoint keeps of the proposal --------------------------------------------------- *)
+(* A signal inside the proposal's draw / populate path is pickled with populating = True and the
+   resumed run goes straight back into populate WITHOUT retraining.  So every attribute that path
+   reads must survive pickle + resume: [dropped] = set to None / deleted by __getstate__,
+   [restored] = assigned again on the resume path or re-derived inside populate itself.            *)
+Definition smem (f : string) (l : list string) : bool := existsb (String.eqb f) l.
+Definition fstore := string -> bool.            (* is the attribute available (not None)? *)
+Definition pickle_resume (dropped restored : list string) (st : fstore) : fstore :=
+  fun f => if smem f restored then true else if smem f dropped then false else st f.
+Definition fields_ok (dropped read restored : list string) : bool :=
+  forallb (fun f => negb (smem f dropped) || smem f restored) read.
 
 (* ---- ImportanceNestedSampler.checkpoint ------------------------------------------------------ *)
 Inductive ieff :=
